@@ -1,5 +1,5 @@
 #!/bin/bash
-# tools/confirm_seed.sh <id> <patch.diff> <demo.cpp> [std]
+# [LIBS="-lboost_serialization"] tools/confirm_seed.sh <id> <patch.diff> <demo.cpp> [std]
 # Independently confirms a seeded change: demo passes on the pinned tree, fails with the patch, and the unedited
 # test-suite still passes with the patch.  Works in a scratch worktree under /tmp which is removed afterwards.
 set -u
@@ -10,9 +10,9 @@ git -C /repo worktree remove --force $WT >/dev/null 2>&1; rm -rf $WT ${WT}_build
 git -C /repo worktree add --detach $WT HEAD >/dev/null 2>&1 || { echo "worktree failed"; exit 3; }
 {
 echo "confirm $ID at $(date -u +%FT%TZ) on $(git -C /repo rev-parse --short HEAD)"
-g++ -std=$STD -w -I $WT/include $DEMO -o /tmp/confirm_${ID}_demo0 && /tmp/confirm_${ID}_demo0 >/tmp/confirm_${ID}_o0.txt 2>&1; echo "demo on unpatched tree: exit=$? ($(tail -1 /tmp/confirm_${ID}_o0.txt))"
+g++ -std=$STD -w -I $WT/include $DEMO -o /tmp/confirm_${ID}_demo0 ${LIBS:-} && /tmp/confirm_${ID}_demo0 >/tmp/confirm_${ID}_o0.txt 2>&1; echo "demo on unpatched tree: exit=$? ($(tail -1 /tmp/confirm_${ID}_o0.txt))"
 git -C $WT apply $PATCH || { echo "PATCH DOES NOT APPLY"; }
-g++ -std=$STD -w -I $WT/include $DEMO -o /tmp/confirm_${ID}_demo1 && /tmp/confirm_${ID}_demo1 >/tmp/confirm_${ID}_o1.txt 2>&1; echo "demo on patched tree: exit=$? ($(tail -1 /tmp/confirm_${ID}_o1.txt))"
+g++ -std=$STD -w -I $WT/include $DEMO -o /tmp/confirm_${ID}_demo1 ${LIBS:-} && /tmp/confirm_${ID}_demo1 >/tmp/confirm_${ID}_o1.txt 2>&1; echo "demo on patched tree: exit=$? ($(tail -1 /tmp/confirm_${ID}_o1.txt))"
 JOBS=${JOBS:-6} /verif/tools/run_suite.sh $WT ${WT}_build | tail -3
 } > $OUT/confirm.txt 2>&1
 git -C /repo worktree remove --force $WT >/dev/null 2>&1; rm -rf $WT ${WT}_build ${WT}_build.log /tmp/confirm_${ID}_*
